@@ -3760,6 +3760,8 @@ class PropertyValueWrite(APCI):
         """Serialize to KNX/IP raw data."""
         if not 0 <= self.count <= 0xF:
             raise ConversionError("Count out of range.")
+        if not 0 <= self.start_index <= 0xFFF:
+            raise ConversionError("Start index out of range.")
 
         size = len(self.data)
         payload = struct.pack(
@@ -3857,6 +3859,8 @@ class PropertyValueResponse(APCI):
         """Serialize to KNX/IP raw data."""
         if not 0 <= self.count <= 0xF:
             raise ConversionError("Count out of range.")
+        if not 0 <= self.start_index <= 0xFFF:
+            raise ConversionError("Start index out of range.")
 
         size = len(self.data)
         payload = struct.pack(
@@ -3926,6 +3930,8 @@ class PropertyValueRead(APCIRequest[PropertyValueResponse]):
         """Serialize to KNX/IP raw data."""
         if not 0 <= self.count <= 0xF:
             raise ConversionError("Count out of range.")
+        if not 0 <= self.start_index <= 0xFFF:
+            raise ConversionError("Start index out of range.")
 
         payload = struct.pack(
             "!BBBB",
